@@ -561,6 +561,16 @@ macro_rules! family {
                     let r = match c {
                         'f' => it.next(),
                         'b' => it.next_back(),
+                        // terminal: consume what is left through the std adaptors
+                        'c' => { out.push(format!("rest={}", it.count())); break }
+                        'l' => { out.push(format!("last={}", ohex(it.last().map(|s| bytes_of(s))))); break }
+                        'z' => {
+                            let (lo, hi) = it.size_hint();
+                            let n = it.count();
+                            let ok = lo <= n && hi.map_or(true, |h| n <= h);
+                            out.push(format!("hint={} rest={}", if ok { "ok" } else { "BAD" }, n));
+                            break
+                        }
                         _ => return "bad-op".into(),
                     };
                     out.push(ohex(r.map(|s| bytes_of(s))));
